@@ -1,5 +1,5 @@
 (* Interpreter (src/compiler/mod.rs:60-142). *)
-From SC.Model Require Import Base Num Types Config Post Items.
+From SC.Model Require Import Base Num Types Config Case Post Parser Items.
 
 Section WithNum.
 Context {F : Type} {NF : Num F}.
@@ -54,11 +54,12 @@ Fixpoint execute_ast (cfg : config F) (vs : vars F) (a : ast F) : res (ires * va
     match x with
     | (IErr m, vs1) => Ok (IErr m, vs1)
     | (IOk v, vs1) =>
-      (* *variable.data.borrow_mut() = computed; session.add_variable(variable): an existing
-         variable keeps its name tokens, a new one is registered now *)
+      (* *variable.data.borrow_mut() = computed; session.add_variable(variable): an existing variable (looked up by
+         the parser under [name]) keeps its name tokens and its key; a new one is registered now under
+         VariableInfo::to_string = [var_key] of its tokens (which replaces a variable already stored under that key) *)
       let vs2 := match assoc name vs1 with
                  | Some vi => assoc_insert name {| v_tokens := v_tokens vi; v_data := v |} vs1
-                 | None => assoc_insert name {| v_tokens := toks; v_data := v |} vs1 end in
+                 | None => assoc_insert (var_key vs1 toks) {| v_tokens := toks; v_data := v |} vs1 end in
       Ok (IOk v, vs2)
     end
   | AVariable name =>
